@@ -200,7 +200,7 @@ impl Gen {
             let v = if fault(self) {
                 self.value(1)
             } else if self.coin(50) {
-                jtext(self.pick(&["a/b", "text/plain", "application/cbor", "x/y+z", "ab", " a/b", "a/b ", "a/b/c", ""]).as_bytes())
+                jtext(self.pick(&["a/b", "text/plain", "application/cbor", "x/y+z", "ab", " a/b", "a/b ", "a/b/c", "", "éé/b", "日/x", "a/😀", "é/b/c", "\u{a0}a/b"]).as_bytes())
             } else {
                 let z = self.reg_value::<iana::CoapContentFormat>();
                 self.small_int(z)
